@@ -166,9 +166,10 @@ impl LazyRaw {
             unreachable!("must be lazy parsed");
         };
         let parsed = Box::into_raw(Box::new(v));
+        // a weak compare-exchange may fail spuriously and return the (null) expected value
         match self
             .parsed
-            .compare_exchange_weak(ptr, parsed, Ordering::AcqRel, Ordering::Acquire)
+            .compare_exchange(ptr, parsed, Ordering::AcqRel, Ordering::Acquire)
         {
             // will free by drop
             Ok(_) => Ok(unsafe { &*parsed }),
